@@ -332,10 +332,30 @@ def generate(outpath, repo="/repo"):
                     continue
                 compose.append("Lemma compose_nn%d_x%d_%s (%s : R) :\n  %s %s = %s %s (%s %s).\nProof. reflexivity. Qed.\n"
                                % (li, j, a.lstrip("_"), B, lhs, B, fin_names[a], B, epw, B))
+            # the Newton exit test of this exit: |(capu - epw_j) + esinE_j| < 1e-12
+            newton = [c for c, taken in q.conds if taken and c[0] == "lt" and g.nodes[c[1]][0] == "abs"
+                      and name_of.get(c[1], "").startswith("gen_nn%d_guard" % li)]
+            if newton:
+                gname = name_of[newton[-1][1]]
+                epw0 = epw_names[g.nodes[lift(exits[0].value[1]._sinEPW)][1]]
+                compose.append("Lemma compose_nn%d_x%d_exit_test (%s : R) :\n  %s %s = Rabs ((%s %s - %s %s) + %s %s (%s %s)).\nProof. reflexivity. Qed.\n"
+                               % (li, j, B, gname, B, epw0, B, epw, B, fin_names["_esinE"], B, epw, B))
             for kname in KEP_OUT:
                 compose.append("Lemma compose_nn%d_x%d_out_%s (%s : R) :\n  gen_nn%d_x%d_%s %s = gen_nn%d_fin_out_%s %s (%s %s).\nProof. reflexivity. Qed.\n"
                                % (li, j, kname, B, li, j, kname, B, li, kname, B, epw, B))
         prop_summary.append({"leaf": li, "paths": len(pp), "ok_exits": len(exits), "outcomes": sorted(set(q.outcome for q in pp))})
+    text += "Definition gen_propagate_refuses (m : sgp_mode) : bool :=\n  match m with\n"
+    for mcoq, mname in (("ZeroEcc", "ZERO_ECC"), ("DeepNorm", "DEEP_NORM"), ("NearSimp", "NEAR_SIMP"), ("NearNorm", "NEAR_NORM")):
+        if mname == "NEAR_NORM":
+            val = "false"
+        elif mname in refusals:
+            if refusals[mname] != {"NotImplementedError"}:
+                _unsupported("propagate in mode %s does not always refuse: %r" % (mname, refusals[mname]))
+            val = "true"
+        else:
+            val = "true"   # mode never produced by the constructor on any path
+        text += "  | %s => %s\n" % (mcoq, val)
+    text += "  end.\n\n"
     summary = {"init_paths": len(paths), "init_outcomes": sorted(set(p.outcome for p in paths)),
                "near_norm_leaves": len(nn_leaves), "leaf_variants": leaf_variant,
                "other_modes_propagate": {m: sorted(s) for m, s in refusals.items()}, "prop": prop_summary}
